@@ -213,7 +213,9 @@ def _clean(axes):
     def setup(G):
         x = G.array("x", axes, kinds=ALL_KINDS)
         m = G.array("m", axes, dtype="bool")
-        return Bag(x=x, m=m, x0=x.copy())
+        # the masked array's own fill value (netCDF4: the variable's _FillValue / missing_value): any finite number
+        fv = G.num("fill_value", kinds=(FIN,), grid=[-9999.0, 9.969209968386869e36, -999.0, 0.0, 1e20])
+        return Bag(x=x, m=m, x0=x.copy(), fv=fv)
 
     def call(inp):
         if hasattr(inp.x, "axes"):
@@ -221,9 +223,10 @@ def _clean(axes):
             marr = sh.np_shim.ma.masked_array(inp.x, mask=inp.m)
             # the variable hands out its own storage: writes through v[:] would reach inp.x
             marr.store = inp.x.store
+            marr.fill_value = inp.fv
         else:
             import numpy as np
-            marr = np.ma.masked_array(inp.x, mask=inp.m)
+            marr = np.ma.masked_array(inp.x, mask=inp.m, fill_value=float(inp.fv))
         return verif.util.clean(StubVar(marr))
 
     def post(S, inp, out):
@@ -245,8 +248,8 @@ def _clean(axes):
 
 for _axes, _tag in ((("n",), "1d"), (("t", "l", "s"), "3d"), (("t", "l", "s", "e"), "4d")):
     s, c, p = _clean(_axes)
-    register(Obligation("verif.util.clean#POST:%s" % _tag, ("C04",), s, c, p, modules=MOD, functions=["verif.util.clean"],
-                        assumptions=["netCDF4: variable[:] returns the stored values as a numpy masked array (fill/valid_range cells masked)"]))
+    register(Obligation("verif.util.clean#POST:%s" % _tag, ("C04", "C10"), s, c, p, modules=MOD, functions=["verif.util.clean"],
+                        assumptions=["netCDF4: variable[:] returns the stored values as a numpy masked array (fill/valid_range cells masked) whose fill_value is some finite number"]))
 
 
 def _clean_empty():
@@ -263,4 +266,4 @@ def _clean_empty():
 
 
 s, c, p = _clean_empty()
-register(Obligation("verif.util.clean#POST:empty", ("C04",), s, c, p, modules=MOD, functions=["verif.util.clean"]))
+register(Obligation("verif.util.clean#POST:empty", ("C04", "C10"), s, c, p, modules=MOD, functions=["verif.util.clean"]))
